@@ -281,13 +281,15 @@ Fixpoint burst (c : cfg) (s : st) (k : nat) : st * Z :=
             (s2, n + match v with Pass => 1 | _ => 0 end)
   end.
 
-(* [4; k] Burst -> [number passed; state; #onTripped; #onStandby]; [5] Wrap -> []; [6; h] = [0; h];
+(* [4; k] Burst -> [number passed; state; #onTripped; #onStandby]; [5] Wrap -> []; [6; h] = [0; h]; [7; k] Abort;
    everything else as decode_op says *)
 Definition xstep (c : cfg) (s : st) (l : list Z) : st * list Z :=
   match l with
   | [4; k] => let '(s', n) := burst c s (Z.to_nat k) in (s', [n; state_code (state s'); nTripped s'; nStandby s'])
   | [5] => (s, [])          (* Wrap: the protected handler is exchanged; state, deadline, schedule and metrics are untouched *)
   | [6; h] => ostep c s (Arrive (dec_hint h))   (* an arrival whose request context is already cancelled: an arrival *)
+  | [7; _] => (s, [state_code (state s); nTripped s; nStandby s])   (* Abort: the handler of a request in flight panics:
+                                                   nothing is recorded, no check runs, the ramp's counts stand *)
   | _ => ostep c s (decode_op l)
   end.
 
